@@ -75,7 +75,8 @@ Hook(to, task, reason) ==
          /\ req' = (req /\ task = "start")
          /\ fastreq' = (fastreq /\ task = "start")
          /\ fin' = Due(task, reason)
-         /\ finerr' = (errdue /\ reason = "error" /\ finalst = AnySt)
+         \* (a stop request in force at that moment may legitimately give the stopped status instead)
+         /\ finerr' = (errdue /\ reason = "error" /\ finalst = AnySt /\ task # "stop")
          /\ ending' = TRUE
          /\ finalst' = AnySt /\ errdue' = FALSE /\ UNCHANGED stopst
     ELSE /\ finalst' = AnySt /\ ending' = FALSE /\ errdue' = FALSE
